@@ -685,3 +685,141 @@ func spawnSitesOf(f *ssa.Function, depth int) []*ssa.Go {
 	}
 	return out
 }
+
+// ---- G9: schedule-dependent control through atomics ----
+//
+// A goroutine body that loads an atomic variable which its sibling goroutines update, and branches on
+// the loaded value, does different work under different interleavings (skipping items "that cannot
+// matter any more", early exits on a shared flag). The work-claiming idiom uses the *result of Add* as
+// a ticket and is not a load; the row pipeline's wait/signal protocol lives in methods of its own
+// type and is checked by G3.
+func (g *a4) atomicControl() {
+	c, p := g.c, g.p
+	isAtomic := func(call *ssa.Call, names ...string) (ssa.Value, bool) {
+		cal := call.Call.StaticCallee()
+		if cal == nil || cal.Pkg == nil || cal.Pkg.Pkg.Path() != "sync/atomic" || len(call.Call.Args) == 0 {
+			return nil, false
+		}
+		for _, n := range names {
+			if cal.Name() == n || (len(cal.Name()) > len(n) && cal.Name()[:len(n)] == n && cal.Signature.Recv() == nil) {
+				return atomicRoot(call.Call.Args[0]), true
+			}
+		}
+		return nil, false
+	}
+	bySpawner := map[*ssa.Function][]*ssa.Function{}
+	for _, gs := range g.goStmts() {
+		if fn := bodyOf(gs); fn != nil && fn.Blocks != nil && p.IsModFunc(fn) {
+			bySpawner[gs.Parent()] = append(bySpawner[gs.Parent()], fn)
+		}
+	}
+	n := 0
+	for spawner, bodies := range bySpawner {
+		written := map[ssa.Value]bool{}
+		for _, fn := range bodies {
+			for _, b := range fn.Blocks {
+				for _, in := range b.Instrs {
+					if call, ok := in.(*ssa.Call); ok {
+						if root, ok := isAtomic(call, "Store", "Add", "CompareAndSwap", "Swap", "Or", "And"); ok && root != nil {
+							written[spawnerRoot(fn, root)] = true
+						}
+					}
+				}
+			}
+		}
+		for _, fn := range bodies {
+			n++
+			bad := ""
+			for _, b := range fn.Blocks {
+				for _, in := range b.Instrs {
+					call, ok := in.(*ssa.Call)
+					if !ok {
+						continue
+					}
+					root, ok := isAtomic(call, "Load")
+					if !ok || root == nil || !written[spawnerRoot(fn, root)] {
+						continue
+					}
+					if reachesBranch(call, 0) && bad == "" {
+						bad = p.Pos(call.Pos())
+					}
+				}
+			}
+			key := fmt.Sprintf("%s#atomic-control", FnName(fn))
+			c.Check(bad == "", "G9-atomic-control", key, p.Pos(fn.Pos()), "no branch of the goroutine body depends on an atomic variable that sibling goroutines update",
+				fmt.Sprintf("the goroutine body branches on an atomic variable loaded at %s that goroutines started by %s also update: which work is done depends on the interleaving", bad, spawner.Name()))
+		}
+	}
+	c.Floor("G9-atomic-control", n, 10)
+}
+
+// atomicRoot: the variable an atomic operation works on (captured variable, field address, local cell).
+func atomicRoot(v ssa.Value) ssa.Value {
+	for i := 0; i < 6; i++ {
+		switch x := v.(type) {
+		case *ssa.FieldAddr:
+			v = x.X
+		case *ssa.IndexAddr:
+			v = x.X
+		case *ssa.UnOp:
+			v = x.X
+		default:
+			return v
+		}
+	}
+	return v
+}
+
+// spawnerRoot maps a free variable of a goroutine closure to the spawner's variable.
+func spawnerRoot(fn *ssa.Function, v ssa.Value) ssa.Value {
+	if fv, ok := v.(*ssa.FreeVar); ok {
+		if par := fn.Parent(); par != nil {
+			for _, b := range par.Blocks {
+				for _, in := range b.Instrs {
+					if mc, ok := in.(*ssa.MakeClosure); ok && mc.Fn == ssa.Value(fn) {
+						for k, f := range fn.FreeVars {
+							if f == fv {
+								return mc.Bindings[k]
+							}
+						}
+					}
+				}
+			}
+		}
+	}
+	return v
+}
+
+// reachesBranch: the value flows (through arithmetic, conversions and phis) into a branch condition.
+func reachesBranch(v ssa.Value, depth int) bool {
+	if depth > 6 {
+		return false
+	}
+	refs := v.Referrers()
+	if refs == nil {
+		return false
+	}
+	for _, u := range *refs {
+		switch x := u.(type) {
+		case *ssa.If:
+			return true
+		case *ssa.BinOp:
+			if reachesBranch(x, depth+1) {
+				return true
+			}
+		case *ssa.Convert:
+			if reachesBranch(x, depth+1) {
+				return true
+			}
+		case *ssa.UnOp:
+			if reachesBranch(x, depth+1) {
+				return true
+			}
+		case *ssa.Phi:
+			if reachesBranch(x, depth+1) {
+				return true
+			}
+		}
+	}
+	return false
+}
